@@ -166,6 +166,7 @@ type Machine struct {
 	events      []string
 	sideMutex   map[*Value]*mutexState
 	sideWG      map[*Value]*wgState
+	sideSyncMap map[*Value]*Map
 	sideCond    map[*Value]*condState
 	onceBase    map[*Value]bool
 	onceRun     map[*Value]bool
@@ -538,6 +539,7 @@ func (m *Machine) resetRun(item WorkItem) {
 	m.events = nil
 	m.sideMutex = map[*Value]*mutexState{}
 	m.sideWG = map[*Value]*wgState{}
+	m.sideSyncMap = map[*Value]*Map{}
 	m.sideCond = map[*Value]*condState{}
 	m.onceRun = map[*Value]bool{}
 	m.clock, m.clockN = nil, 0
